@@ -183,3 +183,11 @@ func drawCases(base []string, step int, drawnRoots bool) []string {
 	}
 	return res
 }
+
+// caseAppend: the case continued by one more move
+func caseAppend(c string, uci string) string {
+	if strings.Contains(c, " moves ") {
+		return c + " " + strings.ToLower(uci)
+	}
+	return c + " moves " + strings.ToLower(uci)
+}
